@@ -16,6 +16,8 @@ from typing_extensions import Self
 import base64
 from mashumaro import DataClassDictMixin
 from mashumaro.mixins.msgpack import DataClassMessagePackMixin
+from mashumaro.mixins.orjson import DataClassORJSONMixin
+from mashumaro.mixins.toml import DataClassTOMLMixin
 from mashumaro.config import (BaseConfig, ADD_DIALECT_SUPPORT, TO_DICT_ADD_OMIT_NONE_FLAG,
                               TO_DICT_ADD_BY_ALIAS_FLAG)
 from mashumaro.dialect import Dialect
@@ -112,6 +114,7 @@ FIELD_SRC = {
     "optstr": "Optional[str] = None",
     "bytes": "bytes = b'ab'",
     "plain": "Plain = field(default_factory=Plain)",
+    "byname": "Optional['P'] = None",
     "selfopt": "Optional[Self] = None",
     "selflist": "List[Self] = field(default_factory=list)",
 }
@@ -186,6 +189,8 @@ class Family:
                 v = list(v)
             elif kind == "bytes":
                 v = bytes.fromhex(v)
+            elif kind == "byname":
+                v = None if v is None else self.instance("P", v)
             elif kind == "selfopt":
                 v = None if v is None else self.instance(name, v)
             elif kind == "selflist":
@@ -225,6 +230,26 @@ def canon(v, sort_dicts=False):
     return (tn, repr(v))
 
 
+def _formats():
+    import msgpack
+    import orjson
+    import tomli_w
+    import tomllib
+    return {
+        "DataClassMessagePackMixin": {"to": "to_msgpack", "from": "from_msgpack", "pack": "msgpack", "unpack": "msgpack",
+                                      "parse": lambda b: msgpack.unpackb(b, raw=False),
+                                      "render": lambda d: msgpack.packb(d, use_bin_type=True)},
+        "DataClassORJSONMixin": {"to": "to_jsonb", "from": "from_json", "pack": "jsonb", "unpack": "json",
+                                 "parse": orjson.loads, "render": orjson.dumps},
+        "DataClassTOMLMixin": {"to": "to_toml", "from": "from_toml", "pack": "toml", "unpack": "toml",
+                               "parse": tomllib.loads, "render": tomli_w.dumps},
+    }
+
+
+def fmt_of(fam: "Family"):
+    return _formats()[fam.spec["mixin"]]
+
+
 def call_to_dict(fam: Family, cname: str, vals: dict, di, msgpack_format=False, **kw):
     """-> (canonical result | ('exc', type name), identity flags of list fields, raw result)"""
     inst = fam.instance(cname, vals)
@@ -232,9 +257,9 @@ def call_to_dict(fam: Family, cname: str, vals: dict, di, msgpack_format=False, 
     if di is not None:
         args["dialect"] = fam.dialect(di)
     try:
-        if msgpack_format:
-            import msgpack
-            out = msgpack.unpackb(inst.to_msgpack(**args), raw=False)
+        if msgpack_format:          # the family's own format (msgpack / orjson / toml mixin)
+            f = fmt_of(fam)
+            out = f["parse"](getattr(inst, f["to"])(**args))
             return canon(out), (), out
         out = inst.to_dict(**args)
     except Exception as e:  # noqa: BLE001
@@ -254,8 +279,8 @@ def call_from_dict(fam: Family, cname: str, doc, di, msgpack_format=False):
         args["dialect"] = fam.dialect(di)
     try:
         if msgpack_format:
-            import msgpack
-            res = fam.cls(cname).from_msgpack(msgpack.packb(doc, use_bin_type=True), **args)
+            f = fmt_of(fam)
+            res = getattr(fam.cls(cname), f["from"])(f["render"](doc), **args)
         else:
             res = fam.cls(cname).from_dict(copy.deepcopy(doc), **args)
     except Exception as e:  # noqa: BLE001
@@ -267,8 +292,11 @@ def own_cache_keys(fam: Family, cname: str, direction: str):
     """Dialect indexes (insertion order) in the class's OWN cache dict; None if it has none."""
     if cname not in fam.defined:
         return None
-    attr = {"to": "__dialect_dict_packer_cache__", "from": "__dialect_dict_unpacker_cache__",
-            "mto": "__dialect_msgpack_packer_cache__", "mfrom": "__dialect_msgpack_unpacker_cache__"}[direction]
+    if direction in ("mto", "mfrom"):
+        f = fmt_of(fam)
+        attr = f"__dialect_{f['pack']}_packer_cache__" if direction == "mto" else f"__dialect_{f['unpack']}_unpacker_cache__"
+    else:
+        attr = {"to": "__dialect_dict_packer_cache__", "from": "__dialect_dict_unpacker_cache__"}[direction]
     d = fam.cls(cname).__dict__.get(attr)
     if d is None:
         return None
